@@ -26,7 +26,14 @@ SRC = {
           "completely unrelated replacement text\nwith nothing shared at all\n",  # 6 dissimilar
           "",                                      # 7 emptied
           "x = 1\ninserted = 0\ny = 2\nz = 3\n",      # 8 insert a line before 'y = 2'
-          "x = 1\nz = 3\n"],                          # 9 delete the line 'y = 2'
+          "x = 1\nz = 3\n",                           # 9 delete the line 'y = 2'
+          "x = 1\ninserted = 0\ny = 22\nz = 3\n",     # 10 insert a line before 'y = 2' and edit that line
+          "x = 1\nother = 5\ny = 2\nz = 3\n",         # 11 another line inserted at the same place
+          "x = 1\ny = 2\nz = 3  \n",                  # 12 trailing blanks on the last line
+          "x = 1\ny = 2\nz = 3\t\n"],                 # 13 a trailing tab on the last line
+    # a cell whose source is empty in the base
+    "E": ["", "alpha = 1\nbeta = 2\n", "alpha = 1\ngamma = 3\n", "alpha = 1\nbeta = 2\ndelta = 4\n",
+          "alpha = 1\nbeta = 2", "zeta = 0\nalpha = 1\nbeta = 2\n", "something else entirely in here\n", ""],
     "B": ["import numpy as np\nnp.random.seed(0)\ndata = np.arange(10)\n",
           "import numpy as np\nnp.random.seed(1)\ndata = np.arange(10)\n",
           "import numpy as np\nnp.random.seed(42)\ndata = np.arange(10)\n",
@@ -102,8 +109,10 @@ NEW_SRC = {
 STREAM = ["1\n2\n3\n", "1\n2\n4\n", "1\n2\n5\n", "1\n2\n3\n4\n", "entirely other output text, long enough\n"]
 PLAIN = ["array([0, 1, 2])", "array([0, 1, 3])", "array([0, 1, 4])", "<Figure at 0x7f1234567890>"]
 PLAIN_PTR = "<Figure at 0x7fabcdef0123>"
+B64S = ["QkFTRQ==", "TE9DQUw=", "UkVNT1RF"]
 B64 = ["iVBORw0KGgoAAAANSUhEUgAAAAEAAAABCAYAAAAfFcSJAAAADUlEQVR42mNkYPhfDwAChwGA60e6kgAAAABJRU5ErkJggg==",
-       "iVBORw0KGgoAAAANSUhEUgAAAAEAAAABCAYAAAAfFcSJAAAADUlEQVR42mNkYPhfDwAChwGA60e6kgAAAABJRU5ErkJgXX=="]
+       "iVBORw0KGgoAAAANSUhEUgAAAAEAAAABCAYAAAAfFcSJAAAADUlEQVR42mNkYPhfDwAChwGA60e6kgAAAABJRU5ErkJgXX==",
+       "iVBORw0KGgoAAAANSUhEUgAAAAEAAAABCAYAAAAfFcSJAAAADUlEQVR42mNkYPhfDwAChwGA60e6kgAAAABJRU5ErkJgYY=="]
 TRACEBACK = [["Traceback (most recent call last)", "ZeroDivisionError: division by zero"],
              ["Traceback (most recent call last)", "ZeroDivisionError: division by 0"]]
 
@@ -168,6 +177,11 @@ def mk_output(ctx, kind, tag):
         return {"output_type": "display_data",
                 "data": {"image/png": B64[0], "text/plain": PLAIN[3]},
                 "metadata": {"image/png": {"width": ctx.md(tag)}}}
+    if kind == "result_img":
+        # a short image payload: compared as text, so two different images
+        # still count as "the same output, edited" (a conflict on the data dict)
+        return {"output_type": "execute_result", "execution_count": ctx.ec(tag),
+                "data": {"image/png": B64S[0], "text/plain": "fig"}, "metadata": {}}
     if kind == "display_empty":
         return {"output_type": "display_data", "data": {}, "metadata": {}}
     if kind == "html_upper":
@@ -214,10 +228,11 @@ def mk_cell(ctx, tmpl, tag, idx=None):
     if tmpl.get("lol"):
         md["lol"] = [[ctx.md(tag)], [2, 3]]
     if tmpl.get("stale"):
-        md["nbdime-conflicts"] = {"local_diff": [], "remote_diff": []}
+        md["nbdime-conflicts"] = {} if tmpl["stale"] == "empty" else {"local_diff": [], "remote_diff": []}
     if tmpl.get("nums"):
         md["nums"] = [ctx.md(tag)]
-    cell = {"cell_type": t, "metadata": md, "source": tmpl.get("text") or SRC[tmpl["src"]][0]}
+    cell = {"cell_type": t, "metadata": md,
+            "source": "" if tmpl.get("empty") else (tmpl.get("text") or SRC[tmpl["src"]][0])}
     if t == "code":
         cell["execution_count"] = ctx.ec(tag)
         cell["outputs"] = [mk_output(ctx, k, tag) for k in tmpl.get("outputs", [])]
@@ -254,6 +269,7 @@ TEMPLATES = {
     "codeErr": dict(type="code", src="B", outputs=["error"], md=0),
     "codeDisp": dict(type="code", src="A", outputs=["display"], md=0),
     "codeRes2": dict(type="code", src="B", outputs=["stream", "result_md"], md=1),
+    "codeImgS": dict(type="code", src="A", outputs=["result_img"], md=0),
     "codeJobj": dict(type="code", src="A", outputs=["json_obj"], md=0),
     "codeJlol": dict(type="code", src="A", outputs=["json_lol"], md=0),
     "codeJloo": dict(type="code", src="B", outputs=["json_loo"], md=0),
@@ -273,6 +289,8 @@ TEMPLATES = {
     "codeTr": dict(type="code", src="B", outputs=["result"], md=0, collapsed=True, scrolled=True),
     "codeLol": dict(type="code", src="A", outputs=[], md=0, lol=True),
     "codeStale": dict(type="code", src="A", outputs=[], md=1, stale=True),
+    "codeStale0": dict(type="code", src="A", outputs=[], md=1, stale="empty"),
+    "codeE": dict(type="code", src="E", outputs=[], md=0),
     "mdStale": dict(type="markdown", src="M", md=0, att="stale"),
     "codeNums": dict(type="code", src="B", outputs=[], md=0, nums=True),
     "md": dict(type="markdown", src="M", md=1, att=False),
@@ -294,6 +312,9 @@ NEW_TEMPLATES = {
     # the same id on both sides but different cell types (only meaningful with ids)
     "Nxc": dict(type="code", text="shared id, code flavour\nsecond line\n", outputs=[], md=0, fixed_id="dup00000"),
     "Nxm": dict(type="markdown", text="shared id, code flavour\nsecond line\n", md=0, fixed_id="dup00000"),
+    # the same id, one copy with an empty source and one with text
+    "Nxe": dict(type="code", text="", outputs=[], md=0, fixed_id="dup00001", empty=True),
+    "Nxt": dict(type="code", text="filled = True\nprint(filled)\n", outputs=[], md=0, fixed_id="dup00001"),
     # similar markdown cells whose attachments differ (same name, other content / other name)
     "NmA": dict(type="markdown", text=NEW_SRC["Nm"], md=0, att=True),
     "NmB": dict(type="markdown", text=NEW_SRC["Nm"] + "More.\n", md=1, att="other"),
@@ -305,7 +326,7 @@ NEW_TEMPLATES = {
 CODE_ACTIONS = ["keep", "del", "src1", "src2", "src3", "src4", "src6", "src7", "src8", "src9", "rerun", "ec",
                 "out_edit", "out_edit2", "out_clear", "out_add", "out_add2", "out_add_front", "out_del",
                 "out_del_last", "out_ec", "out_ptr", "rerun2", "out_edit_add", "out_edit2_add2", "out_edit_md",
-                "edit_rerun", "md_src", "collapsed_src", "md_empty_add", "md_empty_set", "unstale_edit", "nums_add", "nums_append", "nums_replace", "tag_front", "tag_back", "md_scrolled_true",
+                "out_edit_ec", "out_edit2_ec", "edit_rerun", "md_src", "collapsed_src", "md_empty_add", "md_empty_set", "unstale_edit", "nums_add", "nums_append", "nums_replace", "tag_front", "tag_back", "md_scrolled_true",
                 "md_scrolled_auto", "md_del_collapsed", "md_shift",
                 "md_edit", "md_add", "md_del", "md_collapsed", "id", "dup", "to_md"]
 MD_ACTIONS = ["keep", "del", "src1", "src2", "src3", "src4", "src6", "md_edit", "md_add",
@@ -356,8 +377,10 @@ def _edit_output(ctx, out, variant, tag):
             else:
                 js = ctx.num(tag)
             data["application/json"] = js
+        elif data.get("image/png") in B64S:
+            data["image/png"] = B64S[variant]
         elif "image/png" in data:
-            data["image/png"] = B64[1]
+            data["image/png"] = B64[variant]
             if variant == 2:
                 data["text/plain"] = PLAIN_PTR
         else:
@@ -416,6 +439,12 @@ def apply_action(ctx, cell, action, tag):
             outs.append(o2)
         c["outputs"] = outs
         return [c]
+    if action in ("out_edit_ec", "out_edit2_ec"):
+        # the first output is edited, the last one (an execute_result) only gets a new prompt number
+        if t != "code" or len(cell["outputs"]) < 2:
+            return [cell]
+        step = apply_action(ctx, cell, action[:-3], tag)[0]
+        return apply_action(ctx, step, "out_ec", tag)
     if action in ("out_edit_add", "out_edit2_add2", "out_edit_md", "edit_rerun"):
         if t != "code":
             return [cell]
